@@ -1463,6 +1463,9 @@ class Evaluator:
                 cases.append((c, Agg("core::option::Option", "Some", {"0": e})))
             cases.append((Cond("true"), Agg("core::option::Option", "None", {})))
             return ("cases", cases)
+        if args and isarr(args[0]) and name in ("any", "all") and "Iterator" in fn and len(args) == 2 and isinstance(args[1], tuple) and args[1][0] == "closure" and len(args[0]) <= 65:
+            cs_ = [self.as_cond(self.call_closure(args[1], [e], depth + 1)) for e in args[0][1:]]
+            return self.logic("or" if name == "any" else "and", *cs_) if cs_ else Cond("false" if name == "any" else "true")
         if args and isinstance(args[0], tuple) and args[0] and args[0][0] == "cases" and fn.startswith("core::option::Option::<T>::") and name in ("map_or", "unwrap_or", "map"):
             vals = []
             for c, v in args[0][1]:
